@@ -412,13 +412,13 @@ func Walk(v Visitor, node Node) {
 		if n.Value != nil {
 			Walk(v, n.Value)
 		}
+		Walk(v, n.X)
 		if n.Init != nil {
 			Walk(v, n.Init)
 		}
 		if n.Cond != nil {
 			Walk(v, n.Cond)
 		}
-		Walk(v, n.X)
 
 	case *ComprehensionExpr:
 		if n.Elt != nil {
